@@ -1154,6 +1154,11 @@ def roundtrip_program(ctx, prog, label):
             names = sorted(cirq.parameter_names(circuit))
             resolver = {n: 0.37 + 0.211 * i for i, n in enumerate(names)}
             u0 = circuit_unitary(circuit, qubits, resolver)
+            if not np.isfinite(u0).all():
+                # an expression of the *original* evaluates to nan/inf at the probe point (e.g. a negative base to a
+                # fractional power): there is no matrix to compare against
+                ctx.event("semantic-skip:original-not-finite")
+                u0 = None
         except Exception as e:  # noqa: BLE001 - see comment above
             ctx.event("semantic-skip:" + type(e).__name__)
             u0 = None
